@@ -24,7 +24,10 @@ echo "--- existing suite with change"; $go test -vet=off -count=1 -skip 'SeedDem
 echo "demo_with_exit=$w demo_without_exit=$wo suite_exit=$s"
 cd /verif
 echo "--- check $id quick against the seeded tree"
+cp evidence/$id.json /tmp/ev-keep-$id-$$.json 2>/dev/null
 VERIF_REPO=$wt ./check $id quick "$@" > $out/check.log 2>&1; c=$?
+# the evidence file describes /repo, not a seeded tree: put the last one back
+[ -f /tmp/ev-keep-$id-$$.json ] && mv /tmp/ev-keep-$id-$$.json evidence/$id.json
 grep -v "^JOB-RESULT" $out/check.log | grep "violation detail\|^C[0-9][0-9] \|KNOWN\|engine error" | cut -c1-300 | head -8
 echo "check_exit=$c"
 python3 - <<PY
